@@ -10,8 +10,8 @@ tie          : (H) value correspondence through the line-protocol driver Drivers
                * FluidMixture.equilibrium's return value from what equil_MM returned (re-insertion, back-conversion)
 real code    : property predicates on the outputs of the real gas_liq_eq / FluidMixture.equilibrium:
                beta in [0,1], x_gas = K x_liq, material balance, row sums, ranges; non-negative phase masses
-               summing to the feed; K = ratio; isofugacity; labelled TESTS (not theorems): convergence of the
-               Rachford-Rice loop, tangent-plane distance of single-phase results, Gibbs-energy label
+               summing to the feed; K = ratio; labelled TESTS (not theorems): isofugacity, convergence of the
+               Rachford-Rice loop, tangent-plane distance of one-phase results, Gibbs-energy label
 """
 import os
 import math
@@ -23,60 +23,54 @@ from common import req, close, relerr, TOL, run_driver
 import scen_mix
 
 META = {
-    'text': ('Theorems (Lean 4, over the reals, every number of components and every iteration count) about a '
-             'line-by-line model of dbm.gas_liq_eq, of the single-phase clean-up / phase label of dbm.equil_MM and '
-             'of the zero-component handling and mass back-conversion of FluidMixture.equilibrium: gas fraction in '
-             '[0,1] with the bracket invariant preserved by every Newton/bisection pass, positive denominators, '
-             'x_gas = K x_liq, component material balance, row sums 1 - beta g and 1 + (1-beta) g, mole fractions in '
-             '[0,1], phase masses non-negative and summing to the feed for every component incl. removed zero '
-             'components and single-phase rows, reported K = x_gas/x_liq, isofugacity at a fixed point of the K '
-             'update.  The literal reading "both rows of gas_liq_eq sum to one" is proved FALSE with a witness (the absent-'
-             'phase row does not) and the witness is replayed on the real code; the gas-mole formula used before commit '
-             '87c9b6c is proved wrong for K_first = 1 and that situation is searched for on the real code in every run.  The model is tied to /repo by value correspondence (incl. the iteration '
-             'trace); the property predicates are evaluated on the real outputs for every generated feed.'),
-    'note': ('Trusted: Lean kernel + 3 standard axioms; the hand transcription Model/Flash.lean (validated by the '
-             'correspondence run on every case); real arithmetic as stand-in for IEEE doubles; the harness.  The '
-             'equation of state is a parameter of the model (not modelled, not verified here).  NOT proved, only '
-             'tested on the real code: convergence of the loops (small residual at exit), termination, stability of '
-             'single-phase results (tangent-plane distance at the Wilson gas-like and liquid-like trial compositions, at 15 '
-             'iterates of Michelsen\'s fixed-point map from each of them, and at 20 random trial compositions, all with '
-             'FluidMixture.fugacity), placement of a single-phase feed in the row of the lower-Gibbs-energy root, '
-             'isofugacity of the converged real outputs (tolerance 2e-4).'),
+    'text': ('Theorems (Lean 4, over the reals, every number of components and every iteration count) about a line-by-line model of '
+             'dbm.gas_liq_eq, of the single-phase clean-up / phase label at the end of dbm.equil_MM and of the zero-component handling '
+             'and mass back-conversion of FluidMixture.equilibrium.  Phase-split solve: gas fraction in [0,1]; the bracket '
+             '[beta_min, beta_max] is preserved by every Newton/bisection pass AND keeps the (unique) Rachford-Rice root inside it (g is '
+             'proved strictly decreasing; this theorem fails for a pass with flipped sign tests), so the returned beta is within the '
+             'final bracket width of the root, and within the last increment after a bisection exit; positive denominators; '
+             'x_gas = K x_liq; component material balance; row sums 1 - beta g and 1 + (1-beta) g; mole fractions in [0,1].  '
+             'Equilibrium: end-to-end conservation (every component, incl. removed zero-mass components, every way equil_MM can be '
+             'left, K >= 0 with positive denominators), non-negative phase masses, reported K = x_gas/x_liq.  The literal reading '
+             '"both rows of gas_liq_eq sum to one" is proved FALSE with a witness that is replayed on the real code.  The model is tied '
+             'to /repo by value correspondence (incl. the per-pass increments of the iteration); the property predicates are evaluated '
+             'on the real outputs of every generated feed.'),
+    'note': ('Trusted: Lean kernel + 3 standard axioms; the hand transcription Model/Flash.lean (validated by the correspondence run on '
+             'every case); real arithmetic as stand-in for IEEE doubles; the harness.  NOT modelled: the equation of state, '
+             'successive_substitution (K update, NaN -> 0, first-step safeguards, stop flags) and stability_analysis — the model takes '
+             'what the last successive_substitution call returned as input (the harness checks that those rows are gas_liq_eq of the '
+             'returned K).  SAMPLED on the real code only, no theorem: isofugacity of converged two-phase outputs (tolerance 2e-4), '
+             'termination and convergence of the loops, existence of the Rachford-Rice root, stability of one-phase results '
+             '(tangent-plane distance at the Wilson gas-like and liquid-like trials, 15 iterates of Michelsen\'s fixed-point map from '
+             'each, 20 random trials; also applied to "two-phase" results with identical phases), placement of a one-phase feed in the '
+             'row of the lower-Gibbs-energy root / the gas row for a near-ideal single-root state.  NOT REACHABLE: the warm-start half '
+             'of the quantifier — dbm.py l.2577 `isinstance(np.sum(K_0), type(np.nan))` is True for every float array, so a supplied K '
+             'is always replaced by the Wilson estimate; a few probes per run record this, they are not counted as coverage.  '
+             'Calls exceeding the time budget (about 1 %, K decaying to underflow over 1e3-1e5 substitution calls) are dropped, '
+             'counted, and bounded by an obligation (<= 4 %).'),
     'technique': 'Lean 4 proof over a hand-written executable model + differential execution against the real code + predicates on real outputs',
 }
 GEN = []
 MODULES = ['TamocV.Props.C02', 'TamocV.Model.Flash']
 RULE = ('phase-split solve: n = 1..7, z Dirichlet(0.2|1|3) (10% with an exact zero), K log-uniform in [1e-6,1e6]^n in the '
         'regimes ' + ', '.join(scen_mix.RR_KINDS) + ' plus fixed edge cases (pure component, K = 1 entries, z_i = 1 with K_i = 1, '
-        'sum z K = 1 exactly), random molar masses in half of the cases; flash: 1..7 distinct database compounds other '
-        'than water and hydrogen (60% forced to contain a light gas and a heavier compound), Dirichlet mass fractions, '
-        'exact zero masses with probability 0.15 per component in half of the feeds, total mass log-uniform 1e-6..1e2 kg, '
-        'T uniform 270-420 K, P log-uniform (70%) or uniform 1e5-5e7 Pa, 35-50% of the feeds re-run at the same or a '
-        'neighbouring state with the K vector the code returned as warm start; targeted cases: pure compounds, dense '
-        'supercritical mixtures of O2/Ar/N2/CO/CH4 at 2-50 MPa, feeds whose first component has K = 1 (bisection in P), '
-        'states next to a phase boundary (bisection in P between a one-phase and a two-phase outcome).  A case is non-trivial when it is '
-        'distinct (composition, masses, T, P rounded to 12 digits)')
+        'sum z K = 1 exactly), random molar masses in half of the cases; flash (cold start only — the warm-start clause of the '
+        'quantifier is unreachable in the code, see META): 1..7 distinct database compounds other than water, hydrogen included '
+        '(60% forced to contain a light gas and a heavier compound), Dirichlet mass fractions, exact zero masses with probability '
+        '0.15 per component in half of the feeds, total mass log-uniform 1e-6..1e2 kg, T uniform 270-420 K, P log-uniform (70%) or '
+        'uniform 1e5-5e7 Pa; targeted feeds in the same pipeline: pure compounds, dense supercritical mixtures of O2/Ar/N2/CO/CH4 at '
+        '2-50 MPa, hydrogen-rich feeds at 10-50 MPa, states on both sides of a phase boundary (bisection in P); regression search: '
+        'feeds whose first component has K = 1 (bisection in P).  Floors on every outcome class are obligations.  A case is '
+        'non-trivial when it is distinct (composition, masses, T, P rounded to 12 digits)')
 LEVEL_NOTE = ('theorems over the reals about a hand-written model of the flash orchestration, tied to /repo by value '
-              'correspondence on every generated case; floating point, the equation of state and the convergence of '
-              'the iterations are outside the proof (tested)')
+              'correspondence on every generated case; floating point, the equation of state, successive substitution, stability '
+              'analysis and the convergence of the iterations are outside the proof (tested)')
 
 FUEL = 400                # iteration budget given to the model; the real loop needed <= 25 passes on 1e6 cases
 TPD_NEG = 1e-7            # a tangent-plane distance below -TPD_NEG is a stability failure (flash tolerance squared, rounded up)
 Z_IDEAL = 0.95            # "near-ideal compressibility"
 PR_LOW = 0.2              # "low reduced pressure" (pseudo-critical pressure = mole-fraction mean of Pc)
 EXCLUDE = ()               # hydrogen is included since z_pr was repaired (commit 974255e); a NaN from the EOS is skipped and counted
-
-
-EXPECTED_THEOREMS = [
-    'rr_step_preserves_bracket', 'rr_loop_preserves_bracket', 'rr_initial_bracket', 'rr_beta_mem', 'rr_beta_in_bracket',
-    'rr_denominators_pos', 'rr_denominators_pos_at_result', 'rr_xgas_eq_K_xliq', 'rr_xgas_eq_K_xliq_component',
-    'rr_material_balance', 'rr_material_balance_component', 'rr_sums', 'rr_sums_dev_le_residual', 'rr_present_row_sums_to_one',
-    'rr_both_rows_sum_to_one_partial', 'rr_not_both_rows_sum_to_one', 'rr_rows_nonneg', 'rr_rows_le_one', 'rr_subcooled',
-    'rr_superheated', 'rr_newton_exit_residual_partial', 'rr_exit_increment_small', 'feed_moleFrac_isComposition',
-    'zero_components_reinserted', 'masses_conserved', 'flash_masses_conserved', 'single_phase_masses', 'old_first_component_formula',
-    'label_from_last_beta', 'equilMMEnd_single_phase', 'equilMMEnd_two_phase', 'equilMMEnd_converged_single', 'single_phase_rows',
-    'reported_K_is_ratio', 'isofugacity_at_fixed_point', 'witness_rows_are_rr_solution',
-]
 
 
 def audit_files():
@@ -345,6 +339,7 @@ def _install_recorders():
         return r
 
     dbm.equil_MM, dbm.successive_substitution, dbm.stability_analysis, dbm.gas_liq_eq = mm, ss, sa, gle
+    _W['orig'] = {'ss': o_ss, 'sa': o_sa, 'gle': o_gle}
     _W['installed'] = True
 
 
@@ -413,16 +408,35 @@ def eval_feed(job):
     res['feed_fug_finite'] = [bool(np.all(np.isfinite(lfz[r][nz]))) for r in (0, 1)]
     if not np.all(np.isfinite(mm)):
         return res
+    # successive_substitution must hand back the rows / gas fraction of gas_liq_eq for the K it returns (l.3084)
+    if rec.get('ss') is not None and rec.get('mm') is not None:
+        ssr = rec['ss']
+        Kss = np.array(ssr['K'], dtype=float)
+        res['K_has_zero_or_denormal'] = bool(np.any((Kss == 0.) | ((np.abs(Kss) < 2.3e-308) & (Kss != 0.))))
+        try:
+            with np.errstate(all='ignore'):
+                xi2, b2 = call_with_budget(lambda: _W['orig']['gle'](np.array(rec['mm']['m']), np.array(rec['mm']['M']), Kss), 5.)
+            res['ss_consistent'] = bool(np.array_equal(np.asarray(xi2, dtype=float), np.array(ssr['xi'], dtype=float), equal_nan=True)
+                                        and (float(b2) == ssr['beta'] or (math.isnan(float(b2)) and math.isnan(ssr['beta']))))
+        except _Timeout:
+            res['ss_consistent'] = None
     gas_mass, liq_mass = float(np.sum(mm[0])), float(np.sum(mm[1]))
     two = gas_mass > 0. and liq_mass > 0.
     res['two'] = two
+    # a "two-phase" result whose phases are identical (trivial solution K = 1) is ALSO put through the single-phase clauses
+    trivial = bool(two and np.all(np.abs(xi[0][nz] - xi[1][nz]) <= 1e-12))
+    res['trivial'] = trivial
     if two:
         with np.errstate(all='ignore'):
             fg = fm.fugacity(mm[0], T, P)[0]
             fl = fm.fugacity(mm[1], T, P)[1]
         res['f_gas'], res['f_liq'] = fg.tolist(), fl.tolist()
-        return res
+        if not trivial:
+            return res
     row = 0 if gas_mass > 0. else 1
+    if trivial:
+        row = 0
+        res['liquid_mass_fraction'] = liq_mass / (gas_mass + liq_mass)
     res['row'] = row
     # compressibility of the feed in the labelled row and pseudo-reduced pressure
     with np.errstate(all='ignore'):
@@ -484,7 +498,41 @@ def eval_feed(job):
                 break
             w = Wn / sW
     res['tpd'] = {'min': tmin, 'arg': targ, 'n': ntr, 'skipped': nskip}
+    if tmin < -TPD_NEG:
+        res['wilson_stability'] = _wilson_signature(fm, m, T, P, nz, Kw, gz)
     return res
+
+
+def _wilson_signature(fm, m, T, P, nz, Kw, gz):
+    """mechanism signature of the known finding 'stability test started from the drifted K': does the code's OWN
+    stability_analysis, started from the Wilson K instead, report two phases, and does its own successive_substitution
+    from there reach a split with a lower Gibbs energy than the single phase?"""
+    mi = np.where(nz)
+    out = {'phases': None, 'beta': None, 'dG': None}
+    try:
+        mr, M = m[mi], fm.M[mi]
+        args = (mr, T, P, M, fm.Pc[mi], fm.Tc[mi], fm.omega[mi], fm.delta[np.transpose(mi), mi], fm.Aij, fm.Bij,
+                fm.delta_groups[mi, :][0], fm.calc_delta)
+        zi = (mr / M) / np.sum(mr / M)
+        with np.errstate(all='ignore'):
+            from tamoc import dbm
+            f_zi = dbm.dbm_f.fugacity(T, P, zi * M, M, *args[4:])[0, :]
+            di = np.log(zi) + np.log(f_zi / (zi * P))
+            K_st, phases = call_with_budget(lambda: _W['orig']['sa'](*(args + (Kw[mi], zi, di))), 5.)
+            out['phases'] = int(phases)
+            if phases > 1:
+                r = call_with_budget(lambda: _W['orig']['ss'](*(args[:3] + (np.inf,) + args[3:] + (K_st,)), steps=5), 5.)
+                beta, x = float(r[1]), np.asarray(r[2], dtype=float)
+                out['beta'] = beta
+                if 0. < beta < 1.:
+                    fg = dbm.dbm_f.fugacity(T, P, x[0] * M, M, *args[4:])[0, :]
+                    fl = dbm.dbm_f.fugacity(T, P, x[1] * M, M, *args[4:])[1, :]
+                    G2 = beta * float(np.sum(x[0] * np.log(fg))) + (1. - beta) * float(np.sum(x[1] * np.log(fl)))
+                    G1 = min(g for g in gz if math.isfinite(g))
+                    out['dG'] = G2 - G1
+    except _Timeout:
+        out['timeout'] = True
+    return out
 
 
 # =============================================================================================
@@ -559,10 +607,10 @@ def check_feed(ctx, res, lines, line_owner):
     """property predicates on ONE real result; appends driver requests for the correspondence"""
     c = res['case']
     case = {k: c[k] for k in ('composition', 'm', 'T', 'P', 'K0')}
-    warm = c['K0'] is not None
     ctx.evaluations += 1
     ctx.nontrivial.add(_key(c))
-    ctx.count('flash:warm' if warm else 'flash:cold')
+    ctx.count('flash:feeds')
+    ctx.count('flash:tag:' + str(c.get('tag')))
     if res['status'] == 'slow':
         ctx.count('flash:budget-exceeded(not evaluated)')
         return 'slow'
@@ -580,6 +628,13 @@ def check_feed(ctx, res, lines, line_owner):
     if np.any(~nz):
         ctx.count('flash:with-zero-mass-components')
     rec = res['rec']
+    if 'ss_consistent' in res:
+        ctx.count('flash:ss-rows-compared-with-gas_liq_eq')
+        if res['ss_consistent'] is False:
+            ctx.violation('ss-rows-not-from-returned-K', 'successive_substitution returned rows / gas fraction that are not gas_liq_eq(m, M, K) of the K it returned',
+                          dict(case, last_successive_substitution=rec['ss']))
+        if res.get('K_has_zero_or_denormal'):
+            ctx.count('flash:last-K-has-zero-or-denormal-entry')
     # ---- correspondence requests (answered by the Lean model through the driver) ---------------------------------
     mmr = rec.get('mm')
     if mmr is not None:
@@ -669,7 +724,7 @@ def check_feed(ctx, res, lines, line_owner):
             if not np.all(np.abs(xf - xi[rrow]) <= (dev + TOL['identity']) * 2.):
                 ctx.violation('xi-inconsistent-with-masses', 'returned mole fractions are not those of the returned phase masses',
                               dict(case, row=rrow, xi=xi.tolist(), masses=mm.tolist()))
-        # isofugacity (TEST of the converged real output, flash tolerance)
+        # isofugacity: a TEST of the converged real output at the flash tolerance (successive_substitution is not modelled)
         fg, fl = np.array(res['f_gas']), np.array(res['f_liq'])
         if not (np.all(np.isfinite(fg[nz])) and np.all(np.isfinite(fl[nz])) and np.all(fl[nz] > 0.)):
             ctx.count('flash:skipped-isofugacity(EOS returns NaN; C01 matter)')
@@ -677,16 +732,22 @@ def check_feed(ctx, res, lines, line_owner):
             ratio = fg[nz] / fl[nz]
             w = float(np.max(np.abs(ratio - 1.)))
             res['iso'] = w
+            ctx.count('flash:isofugacity-evaluated')
             if not w <= TOL['flash_fugacity']:
                 ctx.violation('isofugacity', 'gas and liquid fugacity of a component differ by more than the flash tolerance',
                               dict(case, worst_ratio_minus_1=w, f_gas=fg.tolist(), f_liq=fl.tolist(), K=K.tolist()))
-            # the reported K is (within the same tolerance) a fixed point of the K update of the Lean model
-            lines.append(req('Flash.kUpdate', xi[0][nz], xi[1][nz], fg[nz], fl[nz], c['P']))
-            line_owner.append((res, 'kupdate'))
-        return 'two'
+        if not res.get('trivial'):
+            return 'two'
+        # identical phases (trivial solution K = 1 reported as two phases): physically ONE phase, so the single-phase clauses
+        # of the property (stability, placement) are evaluated as well
+        ctx.count('flash:trivial-two-phase(x_gas == x_liq within 1e-12)')
+        single_phase_clauses(ctx, res, case, None)
+        return 'trivial-two'
     # ---- one phase reported ------------------------------------------------------------------------------------------
     row = res['row']
     ctx.count('flash:single-' + ('gas' if row == 0 else 'liquid'))
+    if rec.get('n_sa', 0) == 0:
+        ctx.count('flash:single-phase-labelled-without-stability_analysis')
     other = 1 - row
     if not np.all(np.isnan(K)):
         ctx.violation('K-not-nan-in-single-phase', 'one phase reported but K is not the NaN vector', dict(case, K=K.tolist()))
@@ -697,8 +758,19 @@ def check_feed(ctx, res, lines, line_owner):
         ctx.violation('single-phase-composition', 'the present phase composition is not the feed composition', dict(case, xi=xi.tolist(), z=z.tolist()))
     if not abs(float(np.sum(xi[row])) - 1.) <= TOL['identity'] * n:
         ctx.violation('phase-composition-sum', 'the present phase composition does not sum to one', dict(case, xi=xi.tolist()))
+    single_phase_clauses(ctx, res, case, row)
+    return 'single'
+
+
+def single_phase_clauses(ctx, res, case, row):
+    """the TESTS the property attaches to a one-phase outcome: placement by Gibbs energy (gas row for a near-ideal single-root
+    state) and stability (no negative tangent-plane distance).  row = 0/1 for a reported single phase, None for identical
+    phases reported as two (then some of the feed sits in the liquid row)"""
+    c = res['case']
+    nzn = int(np.sum(np.array(c['m']) > 0.))
+    z = np.array(res['z'])
     g = res['gibbs_feed']
-    # TEST: Gibbs-energy label
+    feed_nan = not (res['feed_fug_finite'][0] and res['feed_fug_finite'][1])
     if feed_nan or not (math.isfinite(g[0]) and math.isfinite(g[1])):
         ctx.count('flash:skipped-label-test(EOS returns NaN for one root of the feed; C01 matter)')
         single_root = None
@@ -709,54 +781,117 @@ def check_feed(ctx, res, lines, line_owner):
         pass
     elif not single_root:
         better = 0 if g[0] < g[1] else 1
-        if better != row and abs(g[0] - g[1]) > 1e-9 * max(1., abs(g[0]), abs(g[1])):
+        if row is not None and better != row and abs(g[0] - g[1]) > 1e-9 * max(1., abs(g[0]), abs(g[1])):
             ctx.violation('label-not-lower-gibbs', 'single-phase feed placed in the row of the EOS root with the HIGHER Gibbs energy',
                           dict(case, row=row, gibbs_gas_row=g[0], gibbs_liq_row=g[1]))
+        if row is None and abs(g[0] - g[1]) > 1e-9 * max(1., abs(g[0]), abs(g[1])):
+            ctx.violation('identical-phases-in-both-rows', 'identical phases reported in BOTH rows although the two EOS roots of the feed differ in Gibbs energy',
+                          dict(case, gibbs_gas_row=g[0], gibbs_liq_row=g[1], liquid_mass_fraction=res.get('liquid_mass_fraction')))
     else:
-        if row == 1 and res['Z'] >= Z_IDEAL and res['Pr'] <= PR_LOW:
-            ctx.count('flash:ideal-gas-in-liquid-row:' + ('pure' if int(np.sum(nz)) == 1 else 'mixture'))
-            ctx.violation('single-root-ideal-gas-in-liquid-row', 'single-root state of near-ideal compressibility at low reduced pressure placed in the LIQUID row',
-                          dict(case, Z=res['Z'], reduced_pressure=res['Pr']))
-    # TEST: tangent-plane distance
-    t = res['tpd']
+        if res['Z'] >= Z_IDEAL and res['Pr'] <= PR_LOW:
+            if row == 1:
+                # the ONLY situation filed under this key: single-root state, Z >= 0.95, P/Ppc <= 0.2, all of the feed in the liquid row
+                ctx.count('flash:ideal-gas-in-liquid-row:' + ('pure' if nzn == 1 else 'mixture'))
+                ctx.violation('single-root-ideal-gas-in-liquid-row', 'single-root state of near-ideal compressibility at low reduced pressure placed in the LIQUID row',
+                              dict(case, Z=res['Z'], reduced_pressure=res['Pr']))
+            elif row is None:
+                ctx.violation('ideal-gas-partly-in-liquid-row', 'single-root near-ideal state reported as two identical phases: part of the gas sits in the LIQUID row',
+                              dict(case, Z=res['Z'], reduced_pressure=res['Pr'], liquid_mass_fraction=res.get('liquid_mass_fraction')))
+    t = res.get('tpd')
     if t is not None:
         ctx.count('flash:tpd-trials', t['n'] - t['skipped'])
         if t['min'] < -TPD_NEG:
+            # mechanism signature of the known finding (equil_MM l.2616 starts the stability test from the drifted K): the code's own
+            # stability_analysis started from the WILSON K reports two phases and its own successive_substitution reaches a split of
+            # lower Gibbs energy.  Only that, for a hydrogen-rich feed at high pressure, goes under the specific key.
+            sig = res.get('wilson_stability') or {}
             zh = float(z[c['composition'].index('hydrogen')]) if 'hydrogen' in c['composition'] else 0.
-            key = 'unstable-single-phase-hydrogen-rich-high-pressure' if (zh >= 0.5 and c['P'] >= 3e7) else 'negative-tangent-plane-distance'
-            ctx.violation(key, 'a trial composition has a negative tangent-plane distance from a feed reported as one phase',
-                          dict(case, row=row, tpd=t['min'], trial=t['arg']))
-    return 'single'
+            signature = sig.get('phases') == 2 and sig.get('dG') is not None and sig['dG'] < 0.
+            specific = signature and row == 0 and zh >= 0.5 and c['P'] >= 3e7
+            ctx.count('flash:negative-tpd:' + ('signature-wilson-start-finds-split' if signature else 'no-signature'))
+            ctx.violation('unstable-single-phase-hydrogen-rich-high-pressure' if specific else 'negative-tangent-plane-distance',
+                          'a trial composition has a negative tangent-plane distance from a feed reported as one phase',
+                          dict(case, row=row, tpd=t['min'], trial=t['arg'], wilson_started_stability_analysis=sig))
+
+
+def boundary_feeds(ctx):
+    """feeds next to a phase boundary: bisection in P (on the real code, in this process) between a one-phase and a two-phase
+    outcome; the two states across the boundary join the ordinary flash jobs (same predicates, same correspondence)"""
+    r = ctx.rng
+    t_start, t_max, call_budget = time.time(), ctx.n(20., 300.), ctx.n(1.0, 3.0)
+    jobs = []
+    tries = 0
+    while len(jobs) < ctx.n(16, 240) and tries < ctx.n(60, 1200) and time.time() - t_start < t_max:
+        tries += 1
+        names = scen_mix.pick_mixture(r, 2, 5, EXCLUDE, want_light=True)
+        fm = _fm(names)
+        ma = np.array(scen_mix.feed_masses(r, len(names), 1e-3, 1e1))
+        T = r.uniform(270., 420.)
+
+        def two(P):
+            with np.errstate(all='ignore'):
+                mm = call_with_budget(lambda: fm.equilibrium(ma, T, P), call_budget)[0]
+            return bool(np.sum(mm[0]) > 0. and np.sum(mm[1]) > 0.)
+        try:
+            Ps = np.exp(np.linspace(math.log(1e5), math.log(5e7), 12))
+            vals = [two(P) for P in Ps]
+            br = [(a, b) for a, b, va, vb in zip(Ps[:-1], Ps[1:], vals[:-1], vals[1:]) if va != vb]
+            if not br:
+                continue
+            a, b = r.choice(br)
+            fa = two(a)
+            lo, hi = bisect_P(lambda P: two(P) == fa, a, b, nmax=r.choice([8, 20, 60]))
+        except _Timeout:
+            ctx.count('boundary-search:budget-exceeded')
+            continue
+        for P in (lo, hi):
+            jobs.append({'composition': names, 'm': ma.tolist(), 'T': T, 'P': float(P), 'K0': None, 'tag': 'boundary'})
+    return jobs
 
 
 def run_flash(ctx, lean_ok, dbm):
     budget = ctx.n(2.0, 5.0)
-    jobs = gen_feeds(ctx)
+    jobs = gen_feeds(ctx) + boundary_feeds(ctx)
     t0 = time.time()
     results = _pool_map(ctx, jobs, budget)
-    # warm start: re-run a share of the feeds at a neighbouring state with the K vector the code returned
+    # warm-start PROBE (not coverage): dbm.equil_MM l.2577 tests `isinstance(np.sum(K_0), type(np.nan))`, which is True for every
+    # float array, so a supplied K is always replaced by the Wilson estimate and the warm-start clause of the quantifier is
+    # unreachable.  A few feeds are re-run with the K the code returned at a neighbouring state; the K that reaches the first
+    # successive_substitution call is recorded.  Only if the supplied K does arrive (i.e. after a repair) do these calls count.
     r = ctx.rng
     warm_jobs = []
-    for res in results:
-        if res['status'] != 'ok' or not r.random() < ctx.n(0.35, 0.5):
-            continue
+    cand = [res for res in results if res['status'] == 'ok' and res.get('two') and np.all(np.isfinite(res['K']))]
+    for res in r.sample(cand, min(len(cand), ctx.n(12, 200))):
         c = res['case']
-        Kprev = res['K']
-        if r.random() < 0.3:
-            T2, P2 = c['T'], c['P']
-        else:
-            T2 = min(420., max(270., c['T'] + r.uniform(-5., 5.)))
-            P2 = min(5e7, max(1e5, c['P'] * math.exp(r.uniform(-0.1, 0.1))))
-        warm_jobs.append({'composition': c['composition'], 'm': c['m'], 'T': T2, 'P': P2, 'K0': Kprev, 'tag': 'warm', 'cold': res})
-    payload = [{k: v for k, v in j.items() if k != 'cold'} for j in warm_jobs]
-    warm_results = _pool_map(ctx, payload, budget)
-    ctx.notes.append('equilibrium: %d cold + %d warm-start real calls in %.1f s (budget %.1f s per call)'
+        T2 = min(420., max(270., c['T'] + r.uniform(-2., 2.)))
+        P2 = min(5e7, max(1e5, c['P'] * math.exp(r.uniform(-0.03, 0.03))))
+        warm_jobs.append({'composition': c['composition'], 'm': c['m'], 'T': T2, 'P': P2, 'K0': res['K'], 'tag': 'warm'})
+    warm_results = _pool_map(ctx, warm_jobs, budget)
+    ctx.notes.append('equilibrium: %d real calls (+ %d warm-start probes) in %.1f s (budget %.1f s per call)'
                      % (len(results), len(warm_results), time.time() - t0, budget))
+    nused = nign = 0
+    warm_counted = []
+    for j, wres in zip(warm_jobs, warm_results):
+        if wres['status'] != 'ok' or wres['rec'].get('first_K_in') is None:
+            continue
+        k0 = np.array(j['K0'])[np.array(j['m']) > 0.]
+        used = np.array(wres['rec']['first_K_in'])
+        if len(k0) == len(used) and close(list(k0), list(used), 1e-12):
+            nused += 1
+            warm_counted.append(wres)
+        else:
+            nign += 1
+            ctx.count('flash:warm-start-probe(supplied K replaced by the Wilson estimate; NOT coverage)')
+    ctx.notes.append('QUANTIFIER CLAUSE NOT REACHABLE: "with and without a warm-start K vector" — the supplied K reached the first '
+                     'successive_substitution call in %d of %d probes (dbm.py l.2577 `isinstance(np.sum(K_0), type(np.nan))` is True for every '
+                     'float array; repair: `np.isnan(np.sum(K_0))`).  Every evaluated call is therefore a cold start; no statement clause is made '
+                     'false by this, the warm-start half of the quantifier is simply not exercised%s'
+                     % (nused, nused + nign, '' if nused == 0 else ' — EXCEPT that the supplied K now arrives: those calls are evaluated and counted under flash:tag:warm'))
     lines, owner = [], []
     slow = []
     worst_iso = 0.
     nsamp = 0
-    for res in results + warm_results:
+    for res in results + warm_counted:
         kind = check_feed(ctx, res, lines, owner)
         if kind == 'slow':
             slow.append(res)
@@ -766,25 +901,10 @@ def run_flash(ctx, lean_ok, dbm):
             nsamp += 1
             ctx.sample({'call': 'FluidMixture.equilibrium', 'composition': res['case']['composition'], 'm': res['case']['m'],
                         'T': res['case']['T'], 'P': res['case']['P'], 'masses': res['mm'], 'K': [None if (isinstance(k, float) and math.isnan(k)) else k for k in res['K']]})
-    ctx.notes.append('worst |f_gas/f_liq - 1| over the two-phase results: %.3g (tolerance %g)' % (worst_iso, TOL['flash_fugacity']))
-    # warm start gives the same answer as a cold start at the same state (the code ignores K: see notes)
-    nsame = ndiff = 0
-    for j, wres in zip(warm_jobs, warm_results):
-        if wres['status'] != 'ok':
-            continue
-        rec = wres['rec']
-        if rec.get('first_K_in') is not None and rec.get('mm') is not None:
-            k0 = np.array(j['K0'])[np.array(j['m']) > 0.]
-            used = np.array(rec['first_K_in'])
-            if np.all(np.isfinite(k0)) and len(k0) == len(used) and close(list(k0), list(used), 1e-12):
-                nsame += 1
-            else:
-                ndiff += 1
-    ctx.notes.append('warm start: the first successive_substitution call received the supplied K in %d of %d warm calls '
-                     '(equil_MM tests `isinstance(np.sum(K_0), type(np.nan))`, true for every float array, so the Wilson estimate '
-                     'replaces any supplied K; the property holds with and without K for that reason)' % (nsame, nsame + ndiff))
+    ctx.notes.append('worst |f_gas/f_liq - 1| over the two-phase results: %.3g (tolerance %g); isofugacity is SAMPLED only '
+                     '(successive_substitution is not modelled)' % (worst_iso, TOL['flash_fugacity']))
     # budget-exceeded calls: counted and described, not evaluated
-    nall = len(results) + len(warm_results)
+    nall = len(results) + len(warm_counted)
     if slow:
         ex = [{'composition': s['case']['composition'], 'm': s['case']['m'], 'T': s['case']['T'], 'P': s['case']['P'],
                'successive_substitution_calls_so_far': s.get('n_ss')} for s in slow[:5]]
@@ -794,13 +914,25 @@ def run_flash(ctx, lean_ok, dbm):
     if len(slow) > 0.05 * nall + 2:
         ctx.violation('equilibrium-no-termination', 'more than 5% of the equilibrium calls did not return within the budget',
                       {'budget_s': budget, 'n_slow': len(slow), 'n': nall, 'first': slow[0]['case']})
+    # ---- floors: the run must have SEEN every outcome class and must not have dropped more than a small share ---------------
+    h = ctx.hist
+    floors = [('flash:two-phase', 0.10), ('flash:single-gas', 0.08), ('flash:single-liquid', 0.10), ('flash:with-zero-mass-components', 0.08),
+              ('flash:three-roots', 0.01), ('flash:single-root', 0.20), ('flash:n=1', 0.02), ('flash:n=7', 0.03),
+              ('flash:isofugacity-evaluated', 0.10), ('flash:ss-rows-compared-with-gas_liq_eq', 0.80)]
+    low = [(k, h.get(k, 0), int(math.ceil(f * nall))) for k, f in floors if h.get(k, 0) < f * nall]
+    ctx.oblige('floors: every outcome class of the flash seen in at least its minimum share of the %d evaluated calls (%s)'
+               % (nall, ', '.join('%s>=%d%%' % (k.split(':', 1)[1], round(100 * f)) for k, f in floors)), not low, 'below floor: %r' % low)
+    ctx.oblige('floors: at least one trivial two-phase result (identical phases) put through the single-phase clauses, at least 200 '
+               'tangent-plane trial compositions evaluated', h.get('flash:trivial-two-phase(x_gas == x_liq within 1e-12)', 0) >= 1 and h.get('flash:tpd-trials', 0) >= 200,
+               'trivial=%r tpd-trials=%r' % (h.get('flash:trivial-two-phase(x_gas == x_liq within 1e-12)', 0), h.get('flash:tpd-trials', 0)))
+    ctx.oblige('floors: at most 4%% of the equilibrium calls dropped for exceeding the %.1f s budget (%d of %d)' % (budget, len(slow), nall),
+               len(slow) <= 0.04 * nall, '%d of %d' % (len(slow), nall))
     # ---- correspondence through the driver ---------------------------------------------------------------------------
     if lean_ok and lines:
         out = run_driver(ctx, 'C02', lines)
         if out is not None:
             bad = {'reduce': 0, 'mm-end': 0, 'post': 0, 'gle': 0}
             cnt = {'reduce': 0, 'mm-end': 0, 'post': 0, 'gle': 0}
-            worst_k = 0.
             for o, (res, what) in zip(out, owner):
                 rec = res['rec']
                 c = res['case']
@@ -831,7 +963,7 @@ def run_flash(ctx, lean_ok, dbm):
                     if ok:
                         mg, ml, xg, xl, knan, Kv = o
                         code_nan = bool(np.any(np.isnan(res['K'])))
-                        # masses go through the cancellation (n_idx - x_liq N)/(x_gas - x_liq): compare relative to the feed mass
+                        # masses are compared relative to the feed mass of the component
                         ok = (close(xg, res['xi'][0], TOL['gen_vs_source']) and close(xl, res['xi'][1], TOL['gen_vs_source'])
                               and (knan == 1) == code_nan and (code_nan or close(Kv, res['K'], TOL['gen_vs_source'])))
                         mmc = np.array(res['mm'])
@@ -842,15 +974,10 @@ def run_flash(ctx, lean_ok, dbm):
                                 both_nan = np.isnan(mod) & np.isnan(code)
                                 ok = ok and bool(np.all(both_nan | (np.abs(mod - code) <= 1e-9 * tot)))
                     if not ok:
-                        # ill-conditioned back-conversion (first K ~ 1): model and code both return garbage, not comparable
-                        Kf = np.array(res['K'])[np.array(c['m']) > 0.]
-                        if len(Kf) and np.isfinite(Kf[0]) and abs(Kf[0] - 1.) < 1e-5:
-                            ctx.count('flash:post-correspondence-skipped(first K within 1e-5 of 1)')
-                        else:
-                            bad['post'] += 1
-                            if bad['post'] <= 3:
-                                ctx.broken.append(('correspondence', 'Model.Flash.equilibriumPost vs FluidMixture.equilibrium',
-                                                   'case=%r equil_MM=%r code=%r model=%r' % (c, rec['mm'], (res['mm'], res['xi'], res['K']), o)))
+                        bad['post'] += 1
+                        if bad['post'] <= 3:
+                            ctx.broken.append(('correspondence', 'Model.Flash.equilibriumPost vs FluidMixture.equilibrium',
+                                               'case=%r equil_MM=%r code=%r model=%r' % (c, rec['mm'], (res['mm'], res['xi'], res['K']), o)))
                 elif what == 'gle':
                     cnt['gle'] += 1
                     g = rec['gle']
@@ -863,15 +990,6 @@ def run_flash(ctx, lean_ok, dbm):
                         if bad['gle'] <= 3:
                             ctx.broken.append(('correspondence', 'Model.Flash.gasLiqEq vs dbm.gas_liq_eq (call made inside equil_MM)',
                                                'args=%r code=%r model=%r' % ((g['m'], g['M'], g['K']), (g['xi'], g['beta']), o)))
-                elif what == 'kupdate':
-                    if isinstance(o, list):
-                        nzc = np.array(c['m']) > 0.
-                        Kc = np.array(res['K'])[nzc]
-                        wk = float(np.max(np.abs(np.array(o[0]) / Kc - 1.)))
-                        worst_k = max(worst_k, wk)
-                        if not wk <= TOL['flash_fugacity']:
-                            ctx.violation('K-not-fixed-point', 'the reported K is not a fixed point of K = phi_liq/phi_gas within the flash tolerance',
-                                          {'composition': c['composition'], 'm': c['m'], 'T': c['T'], 'P': c['P'], 'K0': c['K0'], 'K': res['K'], 'K_update': o[0]})
             ctx.oblige('correspondence Model.Flash.gather(mask m) == arguments equilibrium passes to equil_MM on %d vectors (exact)' % cnt['reduce'],
                        bad['reduce'] == 0, '%d disagreements' % bad['reduce'])
             ctx.oblige('correspondence Model.Flash.equilMMEnd == return value of dbm.equil_MM given its last successive_substitution result on %d calls (rel %g)'
@@ -880,7 +998,6 @@ def run_flash(ctx, lean_ok, dbm):
                        % (cnt['post'], TOL['gen_vs_source']), bad['post'] == 0, '%d disagreements' % bad['post'])
             ctx.oblige('correspondence Model.Flash.gasLiqEq == dbm.gas_liq_eq on the last call made inside each of %d flashes (K from the EOS)' % cnt['gle'],
                        bad['gle'] == 0, '%d disagreements' % bad['gle'])
-            ctx.notes.append('worst |K_update/K - 1| of the reported K under the model\'s K update with the real fugacities: %.3g' % worst_k)
     return results
 
 
@@ -903,12 +1020,15 @@ def bisect_P(f, lo, hi, nmax=200):
 
 
 def run_targeted(ctx, dbm):
-    """(1) the first non-zero component has K = 1 (bisection in P on the real code): the situation in which the gas-mole
-    formula used before commit 87c9b6c failed (Lean: old_first_component_formula); (2) the rows of that Lean witness pushed
-    through the real back-conversion lines with a stubbed solver; (3) states next to a phase boundary"""
+    """regression search for the defect repaired in commit 87c9b6c (gas moles taken from the first non-zero component alone):
+    (1) real states whose first non-zero component has K = 1, found by bisection in P; (2) the two-phase rows of
+    z = (1/3,1/3,1/3), K = (1,2,1/2) (Lean: witness_rows_are_rr_solution) pushed through the real back-conversion lines with
+    equil_MM stubbed"""
     r = ctx.rng
     t_start, t_max, call_budget = time.time(), ctx.n(25., 420.), ctx.n(1.0, 3.0)
     # ---- (2) z = (1/3,1/3,1/3), K = (1,2,1/2), beta = 1/2 through the real lines 700-721 (equil_MM stubbed) ----------------
+    if _W['installed']:
+        dbm.equil_MM = dbm.equil_MM      # (recorders may be installed in this process: the stub below replaces whatever is there)
     fm = _fm(['methane', 'ethane', 'propane'])
     saved = dbm.equil_MM
     try:
@@ -918,7 +1038,7 @@ def run_targeted(ctx, dbm):
     finally:
         dbm.equil_MM = saved
     good = bool(np.all(np.isfinite(mm))) and bool(np.all(mm >= 0.)) and bool(np.allclose(mm.sum(axis=0), fm.M, rtol=1e-12, atol=0.))
-    ctx.oblige('two-phase rows whose first component has K = 1 (z = (1/3,1/3,1/3), K = (1,2,1/2), beta = 1/2; Lean: old_first_component_formula) '
+    ctx.oblige('two-phase rows whose first component has K = 1 (z = (1/3,1/3,1/3), K = (1,2,1/2), beta = 1/2; Lean: witness_rows_are_rr_solution) '
                'pushed through the real back-conversion lines of FluidMixture.equilibrium conserve every component', good, repr(mm.tolist()))
     if not good:
         ctx.violation('ng-first-component-K=1', 'the back-conversion of FluidMixture.equilibrium does not conserve mass for two-phase rows whose first '
@@ -981,42 +1101,9 @@ def run_targeted(ctx, dbm):
             if not np.all(np.isfinite(mm)) or np.any(mm < 0.) or np.any(defect > TOL['identity']):
                 ctx.violation('ng-first-component-K=1',
                               'equilibrium does not conserve mass / returns negative or NaN masses when the first non-zero component has K = 1 '
-                              '(gas moles taken from that component alone, dbm.py l.706-710)',
+                              '(the situation in which the gas-mole formula used before commit 87c9b6c failed)',
                               dict(case, K_minus_1=(K - 1.).tolist(), masses=mm.tolist(), relative_defect=defect.tolist()))
     ctx.notes.append('targeted: %d of %d feeds have a pressure where the K of the first component crosses 1' % (nfound, len(feeds)))
-    # ---- (3) next to a phase boundary: bisection in P between a one-phase and a two-phase outcome ------------------------
-    jobs = []
-    tries = 0
-    while len(jobs) < ctx.n(16, 240) and tries < ctx.n(60, 1200) and time.time() - t_start < t_max:
-        tries += 1
-        names = scen_mix.pick_mixture(r, 2, 5, EXCLUDE, want_light=True)
-        fm = _fm(names)
-        ma = np.array(scen_mix.feed_masses(r, len(names), 1e-3, 1e1))
-        T = r.uniform(270., 420.)
-
-        def two(P):
-            with np.errstate(all='ignore'):
-                mm = call_with_budget(lambda: fm.equilibrium(ma, T, P), call_budget)[0]
-            return bool(np.sum(mm[0]) > 0. and np.sum(mm[1]) > 0.)
-        try:
-            Ps = np.exp(np.linspace(math.log(1e5), math.log(5e7), 12))
-            vals = [two(P) for P in Ps]
-            br = [(a, b) for a, b, va, vb in zip(Ps[:-1], Ps[1:], vals[:-1], vals[1:]) if va != vb]
-            if not br:
-                continue
-            a, b = r.choice(br)
-            fa = two(a)
-            lo, hi = bisect_P(lambda P: two(P) == fa, a, b, nmax=r.choice([8, 20, 60]))
-        except _Timeout:
-            ctx.count('targeted:boundary:budget-exceeded')
-            continue
-        for P in (lo, hi):
-            jobs.append({'composition': names, 'm': ma.tolist(), 'T': T, 'P': float(P), 'K0': None, 'tag': 'boundary'})
-    res = _pool_map(ctx, jobs, ctx.n(2.0, 5.0))
-    lines, owner = [], []
-    for x in res:
-        k = check_feed(ctx, x, lines, owner)
-        ctx.count('targeted:boundary:' + str(k))
 
 
 def replay(ctx, path):
@@ -1053,9 +1140,6 @@ def replay(ctx, path):
 def run(ctx, lean_ok):
     warnings.simplefilter('ignore')
     from tamoc import dbm
-    if lean_ok and ctx.theorems:
-        missing = [t for t in EXPECTED_THEOREMS if 'TamocV.Props.C02.' + t not in ctx.theorems]
-        ctx.oblige('all %d expected property theorems are present in TamocV.Props.C02' % len(EXPECTED_THEOREMS), not missing, 'missing: %r' % missing)
     t = [time.time()]
     run_rr(ctx, lean_ok, dbm)
     t.append(time.time())
